@@ -16,6 +16,7 @@ What is proved (over any ordered field with floor; the driver runs the model ove
   `ω = 0` (the `assert contour[0] == 0` of the insertion code) and, in discrete time, ends at the Nyquist frequency.
 -/
 import CtrlVerif.Lemmas.NyquistGrid
+import CtrlVerif.Lemmas.DtOps
 import Mathlib.Data.Rat.Floor
 import Mathlib.Tactic.NormNum
 
@@ -194,5 +195,111 @@ example : nyquistExponents (1 : ℚ) [-2] [9/20] = (-4, 9/20) := by
   simp only [nyquistExponents, determineExponents, peripheryParam, rangeExponents, minL, maxL, roundHalfEven,
     List.foldl_nil]
   norm_num
+
+/-! ### the timebase of the loop (`dt` in {`None`, `0`, `True`, `dt > 0`})
+
+`nyquist_response` treats a loop with unspecified timebase (`dt = None`: `tf(..., dt=None)`, anything created while
+`config.defaults['control.default_dt']` is `None`, products of such systems) as continuous.  The three places that
+look at the timebase - the feature selection of `_default_frequency_range`, the cut at the Nyquist frequency and the
+mapping of the poles to the s-plane - must classify every timebase the same way, and no LTI system may fall into the
+swallowed `NotImplementedError` branch (it would contribute no pole / zero to the range: the contour would be built on
+the feature-less range 10^-2 .. 10^2 whatever the dynamics). -/
+
+/-- every timebase a constructor accepts takes one of the two feature branches: the swallowed
+`NotImplementedError` is unreachable -/
+theorem featureBranch_valid {dt : Dt} (h : dt.valid) : featureBranch dt ≠ .skipped := by
+  cases dt with
+  | none => simp [featureBranch, DtPred.isctime]
+  | cont => simp [featureBranch, DtPred.isctime]
+  | dtrue => simp [featureBranch, DtPred.isctime, DtPred.isdtime]
+  | disc q =>
+    have hq : 0 < q := h
+    have hne : q ≠ 0 := ne_of_gt hq
+    simp [featureBranch, DtPred.isctime, DtPred.isdtime, hq, hne]
+
+/-- unspecified timebase: the continuous-time features (poles and zeros of the loop), like `dt = 0` -/
+theorem featureBranch_unspecified : featureBranch .none = .continuous ∧ featureBranch .cont = .continuous := by
+  constructor <;> simp [featureBranch, DtPred.isctime]
+
+theorem featureBranch_discrete {q : ℚ} (hq : 0 < q) :
+    featureBranch (.disc q) = .discrete ∧ featureBranch .dtrue = .discrete := by
+  have hne : q ≠ 0 := ne_of_gt hq
+  constructor <;> simp [featureBranch, DtPred.isctime, DtPred.isdtime, hq, hne]
+
+/-- the only timebase in the skipped branch is the one no constructor accepts (`dt < 0`) -/
+theorem featureBranch_skipped_iff (dt : Dt) : featureBranch dt = .skipped ↔ ∃ q : ℚ, dt = .disc q ∧ q < 0 := by
+  cases dt with
+  | none => simp [featureBranch, DtPred.isctime]
+  | cont => simp [featureBranch, DtPred.isctime]
+  | dtrue => simp [featureBranch, DtPred.isctime, DtPred.isdtime]
+  | disc q =>
+    rcases lt_trichotomy q 0 with h | h | h
+    · have h1 : ¬ 0 < q := not_lt.2 h.le
+      simp [featureBranch, DtPred.isctime, DtPred.isdtime, h, h1, ne_of_lt h]
+    · subst h; simp [featureBranch, DtPred.isctime]
+    · have h1 : ¬ q < 0 := not_lt.2 h.le
+      simp [featureBranch, DtPred.isctime, DtPred.isdtime, h, h1, ne_of_gt h]
+
+/-- the range rule, the cut at the Nyquist frequency and the s-plane mapping agree on what is continuous and what is
+discrete: features are taken as continuous-time ones exactly when the contour is `j omega` on the poles themselves and
+is not cut; as discrete-time ones exactly when the contour is cut at `pi/dt` -/
+theorem timebase_consistent (pi : K) {dt : Dt} (h : dt.valid) :
+    (featureBranch dt = .continuous ↔ polesInSPlane dt = true) ∧
+    (featureBranch dt = .continuous ↔ nyquistFreq pi dt = none) ∧
+    (featureBranch dt = .discrete ↔ (nyquistFreq pi dt).isSome = true) := by
+  cases dt with
+  | none => simp [featureBranch, polesInSPlane, nyquistFreq, DtPred.isctime, DtPred.isdtime]
+  | cont => simp [featureBranch, polesInSPlane, nyquistFreq, DtPred.isctime, DtPred.isdtime]
+  | dtrue => simp [featureBranch, polesInSPlane, nyquistFreq, DtPred.isctime, DtPred.isdtime]
+  | disc q =>
+    have hq : 0 < q := h
+    have hne : q ≠ 0 := ne_of_gt hq
+    simp [featureBranch, polesInSPlane, nyquistFreq, DtPred.isctime, DtPred.isdtime, hq, hne]
+
+omit [LinearOrder K] [IsStrictOrderedRing K] [FloorRing K] in
+/-- the frequency the discrete-time grid is cut at: `pi/dt`, `pi` for `dt = True`; none for `dt = None` / `0` -/
+theorem nyquistFreq_eq (pi : K) {q : ℚ} (hq : 0 < q) :
+    nyquistFreq pi (.disc q) = some (pi / (q : K)) ∧ nyquistFreq pi .dtrue = some pi ∧
+    nyquistFreq pi .none = none ∧ nyquistFreq pi .cont = none := by
+  simp [nyquistFreq, DtPred.isdtime, dtValue, hq]
+
+omit [IsStrictOrderedRing K] [FloorRing K] in
+/-- a loop with unspecified timebase is handed the same frequencies as the same loop declared continuous -/
+theorem defaultOmegaDt_unspecified (pi : K) (npts : ℕ) (om : List K) :
+    defaultOmegaDt pi .none npts om = defaultOmegaDt pi .cont npts om ∧
+    defaultOmegaDt pi .none npts om = prependLinspace npts om := by
+  constructor
+  · rfl
+  · simp only [defaultOmegaDt, nyquistFreq, DtPred.isdtime, defaultOmega]
+    cases prependLinspace npts om <;> rfl
+
+/-- discrete time: the frequencies end at `pi/dt` -/
+theorem defaultOmegaDt_last (pi : K) {q : ℚ} (hq : 0 < q) (npts : ℕ) (a : K) (t : List K) :
+    ∃ l, defaultOmegaDt pi (.disc q) npts (a :: t) = .ok l ∧ l.getLast? = some (pi / (q : K)) := by
+  have h := (nyquistFreq_eq pi hq).1
+  unfold defaultOmegaDt
+  rw [h]
+  exact defaultOmega_last npts _ a t
+
+/-- a factor with unspecified timebase (a static gain `tf(k, 1)`, a system declared with `dt=None`) does not change the
+classification of the loop -/
+theorem loopTimebase_unspecified_factor (d : Dt) :
+    loopTimebase [.none, d] = .ok d ∧ loopTimebase [d, .none] = .ok d ∧ loopTimebase [d] = .ok d := by
+  refine ⟨?_, ?_, rfl⟩
+  · change common .none d = .ok d
+    exact common_none_left d
+  · change common d .none = .ok d
+    exact common_none_right d
+
+example : featureBranch (.disc (1/10)) = .discrete := (featureBranch_discrete (by norm_num)).1
+example : nyquistFreq (3 : ℚ) (.disc (1/10)) = some 30 := by
+  simp [nyquistFreq, DtPred.isdtime, dtValue]; norm_num
+example : loopTimebase [.none, .disc (1/10), .none] = .ok (.disc (1/10)) := by
+  change common' (common' (.ok .none) (.ok (.disc (1/10)))) (.ok .none) = _
+  change (do let x ← common .none (.disc (1/10)); common x .none) = _
+  rw [common_none_left]
+  change common (.disc (1/10)) .none = _
+  exact common_none_right _
+example : loopTimebase [.cont, .dtrue] = .error .timebase := rfl
 
 end CtrlVerif.C13Grid
